@@ -685,6 +685,76 @@ def gen_image_episode(ctx, harness, rng, image, idx, nops, damaged):
     return lines, meta, None
 
 
+def read_super(path):
+    """the fields of the image's super block that `img resuper` can change (format.adoc: 96 bytes, little endian)"""
+    import struct
+    b = open(str(path), "rb").read()
+    f = struct.unpack("<IIIIIHHHHHHQQQQQQQQ", b[:96])
+    return {"frag_count": f[4], "flags": f[7], "id_count": f[8], "bytes_used": f[12], "id_start": f[13], "xattr_start": f[14],
+            "frag_start": f[17], "flen": len(b)}
+
+
+def reload_recipes(s):
+    """super blocks for a re-load on live objects: each way a load can return early, fail half-way, or succeed"""
+    U = (1 << 64) - 1
+    big = 2 * s["flen"] + 8192
+    return [
+        ["noxattr=1"], ["xattr_start=%d" % U], ["xattr_start=%d" % s["bytes_used"]], ["xattr_start=%d" % (s["bytes_used"] + 77)],
+        ["bytes_used=%d" % big, "xattr_start=%d" % (s["flen"] + 100)],          # header read fails (behind the end of the file)
+        ["bytes_used=%d" % big, "xattr_start=%d" % max(96, s["flen"] - 8)],     # header read fails half-way
+        ["xattr_start=%d" % max(96, s["id_start"])],                             # a table that is not an xattr table
+        ["nofrag=1"], ["frag_start=%d" % U], ["frag_start=%d" % s["bytes_used"]], ["frag_count=0"], ["frag_start=96"],
+        ["frag_count=%d" % (s["frag_count"] + 1)], ["frag_start=%d" % s["id_start"]],
+        ["id_count=0"], ["id_start=%d" % s["bytes_used"]], ["id_count=%d" % (s["id_count"] + 1)], ["id_start=%d" % (s["id_start"] + 1)],
+        ["noxattr=1", "nofrag=1", "id_count=0"],
+    ]
+
+
+def gen_reload_episode(ctx, harness, rng, image, idx):
+    """scripted: warm every cache, re-load with a changed super on the live objects, ask again, restore, ask again"""
+    path = image["path"]
+    meta = {"comp": image["comp"], "bs": image["bs"], "damaged": False, "reload": True, "kinds": []}
+    head = ["imgfile %s" % path, "img open", "img walk"]
+    out, rc, err = run_harness(ctx, harness, head, 120)
+    if rc != 0 or len(out) != len(head):
+        return head, meta, ("crash", rc, err)
+    if not out[-2].startswith("st=ok") or not out[-1].startswith("refs=") or out[-1] == "refs=-":
+        raise vlib.CheckFailure("an undamaged image written by the working tree's gensquashfs does not open: %s" % out[-2])
+    refs = []
+    for t in out[-1][5:].split(";"):
+        a, b, c = t.split(":")
+        refs.append((int(a), int(b), int(c)))
+    files = [r[0] for r in refs if r[1] in (2, 9)]
+    xidx = sorted({r[2] for r in refs if r[2] != 0xFFFFFFFF})
+    sup = read_super(path)
+    recipes = reload_recipes(sup)
+    rng.shuffle(recipes)
+
+    def queries():
+        q = []
+        for i in (rng.sample(xidx, min(3, len(xidx))) + [0, 1]):
+            q.append("img %s %d" % (rng.choice(["xattr", "xattrkv"]), i))
+        for i in (0, 1, 2):
+            q.append("img id %d" % i)
+        for ref in rng.sample(files, min(4, len(files))):
+            q.append(rng.choice(["img frag %d" % ref, "img cat %d %s" % (ref, "".join(rng.sample("rbs", 3))),
+                                 "img read %d %d %d" % (ref, rng.choice([0, image["bs"]]), rng.choice([100, image["bs"] + 1]))]))
+        rng.shuffle(q)
+        return q
+
+    lines = head[:-1]
+    for rcp in recipes:
+        lines += queries()
+        lines.append("img resuper " + " ".join(rcp))
+        lines += queries()
+        if rng.random() < 0.5:
+            lines.append("img resuper " + " ".join(rng.choice(recipes)))     # failed / early-return load on top of another one
+            lines += queries()
+        lines.append("img resuper reset=1")
+    lines += queries()
+    return lines, meta, None
+
+
 def crash_site(err):
     """name of the first frame of a sanitizer report that lies in the code under test"""
     for m in re.finditer(r"#\d+ 0x[0-9a-f]+ in (\S+) (\S+)", err):
@@ -754,6 +824,15 @@ def run_image_part(ctx, harness, counts):
                 stats["unopenable_damaged"] += 1
                 continue
             eps.append((lines, meta))
+        # re-loads on live objects (xattr reader, id table, fragment table of the data reader), scripted per image
+        lines, meta, crash = gen_reload_episode(ctx, harness, ctx.rng, image, i)
+        if crash:
+            ctx.violation("C10:crash-in:%s" % crash_site(crash[2]), "real reader code aborted while opening/walking an image "
+                          "(rc=%s): %s" % (crash[1], crash[2][-300:]), {"script": lines})
+        else:
+            eps.append((lines, meta))
+            stats["reload_episodes"] = stats.get("reload_episodes", 0) + 1
+            stats["reload_ops"] = stats.get("reload_ops", 0) + sum(1 for l in lines if l.startswith("img resuper"))
     patched = [None, False]
 
     def get_patched():
@@ -804,7 +883,7 @@ def run_image_part(ctx, harness, counts):
                                   "by used and fresh readers: %s -> %s" % (lines[i0], impl[i0][:300]), replay)
             else:
                 counts["img-ok"] = counts.get("img-ok", 0) + 1
-            if not meta["damaged"] and not meta.get("bad"):
+            if not meta["damaged"] and not meta.get("bad") and not meta.get("reload"):
                 if len(lines) != len(impl):
                     raise vlib.CheckFailure("whole-image episode: %d answers for %d ops" % (len(impl), len(lines)))
                 for l, o in zip(lines, impl):
